@@ -2,7 +2,7 @@
 """run the registered checks against every seeded change:  mutation_matrix.py [--tier quick] [ids...]
    applies seeded/<id>/patch.diff to /repo, runs ./check for the property it targets (plus --also ones), reverts. Writes seeded/MATRIX.json."""
 import sys, os, json, subprocess, glob, time
-V = '/verif'; tier = 'quick'; args = sys.argv[1:]
+V = os.path.dirname(os.path.dirname(os.path.abspath(__file__))); REPO = os.environ.get('VERIF_REPO', '/repo'); tier = 'quick'; args = sys.argv[1:]
 if '--tier' in args: i = args.index('--tier'); tier = args[i + 1]; del args[i:i + 2]
 man = json.load(open(V + '/MANIFEST.json')); claimed = {c['property_id'] for c in man['checks']}
 ALSO = {'C05': ['C08', 'C07', 'C01'], 'C02': ['C04', 'C01'], 'C04': ['C02'], 'C17': ['C01'], 'C03': ['C01', 'C02']}
@@ -13,8 +13,8 @@ for d in sorted(glob.glob(V + '/seeded/C*_*')):
     mid = os.path.basename(d)
     if args and mid not in args and mid.split('_')[0] not in args: continue
     prop = mid.split('_')[0]
-    subprocess.run(['git', '-C', '/repo', 'checkout', '--', '.'], check=True)
-    r = subprocess.run(['git', '-C', '/repo', 'apply', d + '/patch.diff'])
+    subprocess.run(['git', '-C', REPO, 'checkout', '--', '.'], check=True)
+    r = subprocess.run(['git', '-C', REPO, 'apply', d + '/patch.diff'])
     if r.returncode: out[mid] = dict(error='patch does not apply'); continue
     res = {}
     try:
@@ -26,7 +26,7 @@ for d in sorted(glob.glob(V + '/seeded/C*_*')):
             detail = [l.strip() for l in r.stdout.split('\n') if l.startswith('  harness=')]
             res[p] = dict(rc=r.returncode, violations=len(viol), first=(detail[0][:300] if detail else None), broken=[l[:200] for l in r.stdout.split('\n') if l.startswith('BROKEN')][:2], wall_s=round(time.time() - t0, 1))
     finally:
-        subprocess.run(['git', '-C', '/repo', 'checkout', '--', '.'], check=True)
+        subprocess.run(['git', '-C', REPO, 'checkout', '--', '.'], check=True)
     out[mid] = dict(tier=tier, results=res, detected=[p for p, x in res.items() if x['rc'] == 1])
     print(mid, 'DETECTED by ' + ','.join(out[mid]['detected']) if out[mid]['detected'] else 'MISSED', {p: (x['rc'], x['wall_s']) for p, x in res.items()}, flush=True)
     json.dump(out, open(mp, 'w'), indent=1)
